@@ -102,7 +102,7 @@ def ob_string_literal(r, tier, seed, items, pattern=False):
             k = ex.choose([(True, 'plain')] + [(True, 'esc' + e) for e in ESC] + [(True, 'u' + u) for u in UNI])
             if k == 'plain':
                 c = ex.fresh_int('c%d' % i); ex.assume(z3.And(c >= 32, c <= 0x10FFFF, z3.Or(c < 0xD800, c > 0xDFFF), c != 34, c != 92))
-                chars.append(c); want.append(c); desc.append('<char>')
+                chars.append(c); want.append(c); desc.append('<char>'); ex.notes.setdefault('cvars', {})[i] = c
             elif k.startswith('esc'):
                 chars += [92, ord(k[3])]; want.append(ESC[k[3]]); desc.append('\\' + k[3])
             else:
@@ -153,6 +153,12 @@ def ob_string_literal(r, tier, seed, items, pattern=False):
                 m, dt = e2.check(p.pc + [z3.Or(*neq)]); r.queries += 1; r.solver_s += dt
                 bad = m is not None
         if bad:
+            # concrete witness: the plain characters take the values of a model of this path (the failing class may be a narrow range)
+            cv = (p.notes or {}).get('cvars') or {}
+            if cv:
+                m2, dt2 = e2.check(p.pc + ([z3.Or(*neq)] if (dec is not None and len(dec) == len(want) and not conc and neq) else [])); r.queries += 1; r.solver_s += dt2
+                if m2 is not None:
+                    desc = [chr(e2.mval(m2, cv[i])) if (d == '<char>' and i in cv and e2.mval(m2, cv[i]) is not None) else d for i, d in enumerate(desc)]
             key = 'escape-not-decoded' if any(d.startswith('\\') for d in desc) else 'literal-changed'
             found.setdefault(key, ('string literal "%s": the emitted Go literal denotes %s, the source denotes %s' % (''.join(d if d != '<char>' else 'x' for d in desc), dec if dec is None else [x if not ms.is_sym(x) else '?' for x in dec], [x if not ms.is_sym(x) else '?' for x in want]), desc))
         elif len(r.samples) < 3: r.samples.append({'items': desc})
@@ -178,6 +184,7 @@ def py_go_decode(lit):
                 k = {'x': 2, 'u': 4, 'U': 8}[e]
                 try: out.append(int(lit[i + 2:i + 2 + k], 16))
                 except ValueError: return None
+                if e == 'x' and out[-1] >= 0x80: return None      # \xNN is a byte, not a code point: a lone byte >= 0x80 is not the UTF-8 encoding of any character
                 i += 2 + k; continue
             return None
         out.append(ord(c)); i += 1
@@ -189,6 +196,7 @@ def replay_string_literal(desc, expect_panic=False, as_pattern=False):
     want = []
     for d in desc:
         if d == '<char>': want.append(ord('x'))
+        elif len(d) == 1 and d != '\\': want.append(ord(d))      # a concrete plain character taken from the solver's model
         elif d.startswith('\\u'): want.append(None if _is_surr(d[2:]) else int(d[2:], 16))
         else: want.append(ESC[d[1]])
     d_ = tempfile.mkdtemp(prefix='vf-c11-')
